@@ -270,6 +270,11 @@ func (g *gen) pred(cols []qcol, depth int) string {
 			return "NOT (" + g.pred(cols, depth-1) + ")"
 		}
 	}
+	if g.rng.Intn(25) == 0 {
+		// a conjunct that uses no input at all
+		g.feat["constant-predicate"] = true
+		return []string{"1 = 2", "1 = 1", "true", "false", "2 > 1", "'a' = 'b'"}[g.rng.Intn(6)]
+	}
 	c := usable[g.rng.Intn(len(usable))]
 	if g.rng.Intn(6) == 0 {
 		return c.ref + []string{" IS NULL", " IS NOT NULL"}[g.rng.Intn(2)]
